@@ -449,6 +449,20 @@ class PrefixVerified(VerificationStrategy[WC, W]):
         return "PrefixVerified(k=%d)" % self.k
 
 
+class PrefixVerifiedRev(PrefixVerified):
+    """Like PrefixVerified, but the pack it supplies reaches the class only through a reverse rule
+    (C(p.x) is obtained from the rule of C(p) by complement), so expanding needs reverse rules."""
+
+    def verified(self, c):
+        return not c.just_prefix and not c.is_empty() and len(c.prefix) == self.k
+
+    def pack(self, c):
+        return make_pack(parent_factory=True, expand=False, empty_prefix_verified=True, name="needrev")
+
+    def __repr__(self):
+        return "PrefixVerifiedRev(k=%d)" % self.k
+
+
 class EmptyPrefixVerified(Simple, VerificationStrategy[WC, W]):
     """Verifies the classes with empty prefix by brute force (no pack): used to build universes in
     which other classes are only reachable through reverse rules."""
@@ -481,7 +495,7 @@ def basic_pack(**kw):
 
 
 def make_pack(sym=False, inf=False, merge=False, iterative=False, factory=False, parent_factory=False,
-              prefix_verified=None, empty_prefix_verified=False, two_sets=False, no_initial=False, name=None, expand=True):
+              prefix_verified=None, prefix_verified_rev=None, empty_prefix_verified=False, two_sets=False, no_initial=False, name=None, expand=True):
     inferral = ([MinimizePatterns()] if inf else []) + ([MergeStats()] if merge else [])
     exp = [ExpandFactory()] if factory else [Expand()]
     if parent_factory:
@@ -492,6 +506,8 @@ def make_pack(sym=False, inf=False, merge=False, iterative=False, factory=False,
     ver = [WAtom()]
     if prefix_verified is not None:
         ver.append(PrefixVerified(prefix_verified))
+    if prefix_verified_rev is not None:
+        ver.append(PrefixVerifiedRev(prefix_verified_rev))
     if empty_prefix_verified:
         ver.append(EmptyPrefixVerified())
     nm = name or "w%s%s%s%s%s%s" % ("-sym" if sym else "", "-inf" if inf else "", "-merge" if merge else "",
